@@ -8,6 +8,7 @@ import (
 	"fmt"
 	"go/token"
 	"go/types"
+	"strings"
 
 	"golang.org/x/tools/go/ssa"
 )
@@ -146,7 +147,11 @@ func ruleExpansion(w *World, r *Report) {
 		}
 		key := fn + " / " + names[rl]
 		if bad != "" {
-			r.add("MAXSEL", key, pos, Violated, bad)
+			st := Violated
+			if strings.Contains(bad, "is not raised with") {
+				st = Undecided // the zoom change may be done by other means: nothing wrong was seen
+			}
+			r.add("MAXSEL", key, pos, st, bad)
 		} else {
 			r.add("MAXSEL", key, pos, Discharged, "every zoom change in this case targets max(hZoom, vZoom); at least one ID emitted")
 		}
@@ -492,38 +497,6 @@ func ruleIndexInterval(w *World, r *Report, cl map[*ssa.Function]bool) {
 			walk(v, 0)
 			return found
 		}
-		isUpper := func(v ssa.Value) bool { // R - 1
-			b, ok := resolve(v).(*ssa.BinOp)
-			if !ok || b.Op != token.SUB || !isR(b.X) {
-				return false
-			}
-			k, ok := constInt(b.Y)
-			return ok && k == 1
-		}
-		var isLower func(v ssa.Value) bool
-		isLower = func(v ssa.Value) bool { // -R, 0 - R, 0, phi of those
-			v = resolve(v)
-			if k, ok := constInt(v); ok && k == 0 {
-				return true
-			}
-			switch y := v.(type) {
-			case *ssa.UnOp:
-				return y.Op == token.SUB && isR(y.X)
-			case *ssa.BinOp:
-				if y.Op == token.SUB && isR(y.Y) {
-					k, ok := constInt(y.X)
-					return ok && k == 0
-				}
-			case *ssa.Phi:
-				for _, e := range y.Edges {
-					if !isLower(e) {
-						return false
-					}
-				}
-				return true
-			}
-			return false
-		}
 		name := w.FuncName(f)
 		ord := 0
 		instrs(f, func(in ssa.Instruction) {
@@ -549,23 +522,63 @@ func ruleIndexInterval(w *World, r *Report, cl map[*ssa.Function]bool) {
 			ord++
 			n++
 			key := fmt.Sprintf("INTERVAL / %s / bound comparison#%d", name, ord)
-			// normalised: idx op bound
-			ok2 := false
-			switch op {
-			case token.GTR: // idx > upper  -> failure
-				ok2 = isUpper(bound)
-			case token.LSS: // idx < lower  -> failure
-				ok2 = isLower(bound)
-			case token.LEQ: // idx <= upper -> pass
-				ok2 = isUpper(bound)
-			case token.GEQ: // idx >= lower -> pass
-				ok2 = isLower(bound)
+			// every comparison of an integer index with a bound B cuts the integers in two:
+			// idx > B / idx <= B at B, idx >= B / idx < B at B-1.  With R = 2^z the cut of
+			// an upper limit must be R-1, of a signed lower limit -R-1, of an unsigned one -1:
+			// in each case B + delta = a*R - 1 with a in {1, -1, 0}.
+			delta := int64(0)
+			if op == token.GEQ || op == token.LSS {
+				delta = -1
 			}
-			if ok2 {
-				r.Add(Obligation{Rule: "INTERVAL", Key: key, Pos: w.Pos(b.Pos()), Status: Discharged, Detail: "bound is exactly 2^z - 1 / -2^z / 0 (" + shortInstr(b) + ")", Canary: w.IsCanary(f)})
-			} else {
-				r.Add(Obligation{Rule: "INTERVAL", Key: key, Pos: w.Pos(b.Pos()), Status: Violated, Detail: "the bound of the index range is not exactly 2^z - 1 (upper) or -2^z / 0 (lower): " + describeValue(bound), Canary: w.IsCanary(f)})
+			var lin func(v ssa.Value, d int) (a, k int64, ok bool)
+			lin = func(v ssa.Value, d int) (int64, int64, bool) {
+				v = resolve(v)
+				if d > 6 {
+					return 0, 0, false
+				}
+				if c, ok := constInt(v); ok {
+					return 0, c, true
+				}
+				if isR(v) {
+					return 1, 0, true
+				}
+				switch y := v.(type) {
+				case *ssa.UnOp:
+					if y.Op == token.SUB {
+						a, k, ok := lin(y.X, d+1)
+						return -a, -k, ok
+					}
+				case *ssa.BinOp:
+					a1, k1, ok1 := lin(y.X, d+1)
+					a2, k2, ok2 := lin(y.Y, d+1)
+					if ok1 && ok2 {
+						switch y.Op {
+						case token.ADD:
+							return a1 + a2, k1 + k2, true
+						case token.SUB:
+							return a1 - a2, k1 - k2, true
+						}
+					}
+				}
+				return 0, 0, false
 			}
+			verdict, detail := Discharged, ""
+			for _, leaf := range phiLeaves(resolve(bound)) {
+				a, k, ok := lin(leaf, 0)
+				switch {
+				case !ok:
+					if verdict == Discharged {
+						verdict, detail = Undecided, "the bound "+describeValue(leaf)+" is not of the form a*2^z + k"
+					}
+				case (a == 1 || a == -1 || a == 0) && k+delta == -1:
+				default:
+					verdict, detail = Violated, fmt.Sprintf("the comparison cuts the index range at %d*2^z%+d; an existence test must cut at 2^z-1 (upper), -2^z-1 (signed lower) or -1 (unsigned lower): %s", a, k+delta, shortInstr(b))
+				}
+			}
+			if verdict == Discharged {
+				detail = "the comparison cuts the index range exactly at 2^z - 1 / -2^z - 1 / -1 (" + shortInstr(b) + ")"
+			}
+			r.Add(Obligation{Rule: "INTERVAL", Key: key, Pos: w.Pos(b.Pos()), Status: verdict, Detail: detail, Canary: w.IsCanary(f)})
 		})
 	}
 	if n == 0 {
@@ -963,7 +976,7 @@ func ruleTileLoop(w *World, r *Report) {
 	})
 	if outer == nil || zphi == nil {
 		if nSet > 0 && outer != nil {
-			r.add("RANGE-LOOP", fn+" / emitted index", pos, Violated, "the stored vertical index is not a loop variable stepping by one through the converted range")
+			r.add("RANGE-LOOP", fn+" / emitted index", pos, Undecided, "the stored vertical index was not recognised as a loop variable stepping by one through the converted range")
 			return
 		}
 		r.add("RANGE-LOOP", fn+" / shape", pos, Undecided, "no loop over the tiles with an inner loop whose variable is stored as the vertical index was recognised")
@@ -988,7 +1001,7 @@ func ruleTileLoop(w *World, r *Report) {
 	}
 	c := lo.site
 	if !outer.blocks()[c.Block()] {
-		r.add("RANGE-LOOP", fn+" / range call", w.Pos(c.Pos()), Violated, "the range is not converted inside the loop over the tiles (a cached or stale range is used)")
+		r.add("RANGE-LOOP", fn+" / range call", w.Pos(c.Pos()), Undecided, "the range is not converted inside the loop over the tiles that emits it (CACHE-KEY and ELEMENTWISE decide stale or cached ranges)")
 		return
 	}
 	if ok, _ := everyIterationPasses(outer, func(x *ssa.Call) bool { return x == c }, nil); !ok {
@@ -998,7 +1011,7 @@ func ruleTileLoop(w *World, r *Report) {
 	}
 	switch {
 	case lo.tile == nil:
-		r.add("RANGE-LOOP", fn+" / tile fields", w.Pos(c.Pos()), Violated, "the range call does not read both the key and the key zoom from one tile")
+		r.add("RANGE-LOOP", fn+" / tile fields", w.Pos(c.Pos()), Undecided, "the range call was not seen to read both the key and the key zoom from one tile")
 	case !outer.isElem(lo.tile):
 		r.add("RANGE-LOOP", fn+" / tile fields", w.Pos(c.Pos()), Violated, "the range call does not read both fields from this iteration's tile")
 	default:
@@ -1059,7 +1072,7 @@ func ruleTileCompose(w *World, r *Report) {
 	pos := w.Pos(f.Pos())
 	calls := callsTo(f, func(x *ssa.Function) bool { return x == g })
 	if len(calls) != 1 {
-		r.add("COMPOSE", fn+" / delegation", pos, Violated, "expected one call of the extended tile conversion")
+		r.add("COMPOSE", fn+" / delegation", pos, Undecided, "expected one call of the extended tile conversion")
 		return
 	}
 	c := calls[0]
@@ -1082,7 +1095,7 @@ func ruleTileCompose(w *World, r *Report) {
 		}
 	}
 	if loop == nil {
-		r.add("COMPOSE", fn+" / expansion loop", pos, Violated, "no loop over the extended conversion's result")
+		r.add("COMPOSE", fn+" / expansion loop", pos, Undecided, "no loop over the extended conversion's result")
 		return
 	}
 	hc := callsTo(f, func(x *ssa.Function) bool { return x == h })
